@@ -370,7 +370,7 @@ func constructed(p gen.APoss) []MalIn {
 func Replay(scenario string, raw json.RawMessage) []*mc.Violation {
 	if scenario == "single-edit-corruptions" || scenario == "constructed-malformations" {
 		var in MalIn
-		if json.Unmarshal(raw, &in) == nil {
+		if mc.UnmarshalInput(raw, &in) == nil {
 			if v, _ := checkCorrupted(scenario, in); v != nil {
 				return []*mc.Violation{v}
 			}
@@ -378,7 +378,7 @@ func Replay(scenario string, raw json.RawMessage) []*mc.Violation {
 		return nil
 	}
 	var in In
-	if json.Unmarshal(raw, &in) == nil {
+	if mc.UnmarshalInput(raw, &in) == nil {
 		if v := checkDenotes(scenario, in); v != nil {
 			return []*mc.Violation{v}
 		}
